@@ -4,13 +4,13 @@
 usage: verify_seed.py <seed_dir> <demo_file> <dest_rel_path> <demo_pkg> <pkgs,comma> """
 import os, subprocess, sys, shutil, json
 seed, demo, dest, dpkg, pkgs = sys.argv[1:6]
-WT = "/tmp/vw"
+WT = os.environ.get("VERIF_VW", "/tmp/vw")
 env = dict(os.environ, CARGO_NET_OFFLINE="true")
 def sh(cmd, **kw):
     return subprocess.run(cmd, shell=True, cwd=WT, env=env, stdout=subprocess.PIPE, stderr=subprocess.STDOUT, text=True, **kw)
 if not os.path.isdir(WT):
     subprocess.run("git -C /repo worktree add -q %s HEAD && cp /repo/Cargo.lock %s/" % (WT, WT), shell=True, check=True)
-sh("git checkout -q --detach $(git -C /repo rev-parse HEAD) && git checkout -- . && git clean -fdq -e target -e Cargo.lock")
+sh("git checkout -q --detach $(git -C /repo rev-parse HEAD) && git checkout -- . && git clean -fdq -e target -e Cargo.lock -e _seed")
 res = {}
 r = sh("git apply %s" % os.path.join(seed, "patch.diff"))
 res["apply"] = r.returncode == 0
@@ -29,7 +29,7 @@ sh("git apply -R %s" % os.path.join(seed, "patch.diff"))
 r = sh("cargo test --offline -p %s --test %s 2>&1 | tail -8" % (dpkg, tname))
 res["demo_passes_without_patch"] = ("test result: ok" in r.stdout and "FAILED" not in r.stdout)
 res["demo_without_tail"] = r.stdout[-300:]
-sh("git checkout -- . && git clean -fdq -e target -e Cargo.lock")
+sh("git checkout -- . && git clean -fdq -e target -e Cargo.lock -e _seed")
 ok = all(res[k] for k in ("apply", "existing_tests_pass_with_patch", "demo_fails_with_patch", "demo_passes_without_patch"))
 res["confirmed"] = ok
 print(json.dumps({k: v for k, v in res.items() if not k.endswith("tail")}))
